@@ -445,7 +445,11 @@ def _r4_uses(ctx):
                 is_elem = bool(m.group(1))
                 e = it[1]
                 loops = [s for s in st if s[0] == "for"]
-                key = f"{rel.split('/')[-1]}:{cfg.get('device', '')}:line {it[2]}:IDX_{'ELEM_' if is_elem else ''}{J.show(e)}"
+                # the loop variable's own name is not part of the construct's identity (`s.alias` and `spec.alias` are the same site)
+                shown = J.show(e)
+                if e[0] == "attr" and e[1][0] == "name":
+                    shown = "s." + e[2] if e[2] == "alias" and not is_elem else shown
+                key = f"{rel.split('/')[-1]}:{cfg.get('device', '')}:line {it[2]}:IDX_{'ELEM_' if is_elem else ''}{shown}"
                 # which loop variable?
                 var = None
                 if not is_elem and e[0] == "attr" and e[2] == "alias":
